@@ -314,6 +314,17 @@ Check five_small_align_refuted :
     2 mod 4 <> 0 /\ ~ disjoint 2 4 4 (cap5 c 2).
 Print Assumptions five_small_align_refuted.
 
+(* level 4 of the family (ThreadLocalPool), the code as it is: an offset into the per-thread arena and an offset into the shared
+   pool are both 0 - two live blocks carry the same MemOffset (finding five_tl_offset_alias) *)
+Theorem five_tl_offset_alias_refuted :
+  exists c arena ops, new_ok5 Fixed c = true /\
+    live5t (final5t c arena ops) = [(0, 8); (0, 1024)] /\ ~ disjoint 0 8 0 1024.
+Proof. exact five_tl_offset_alias_refuted_proof. Qed.
+Check five_tl_offset_alias_refuted :
+  exists c arena ops, new_ok5 Fixed c = true /\
+    live5t (final5t c arena ops) = [(0, 8); (0, 1024)] /\ ~ disjoint 0 8 0 1024.
+Print Assumptions five_tl_offset_alias_refuted.
+
 (* ------------------------------------------------------------------------------------------- *)
 (* ThreadLocalMemoryPool (ModelTL.v)                                                           *)
 (* ------------------------------------------------------------------------------------------- *)
